@@ -57,6 +57,11 @@ func AccessPath(v ssa.Value) (path string, ok bool) {
 		if c, ok := x.Tuple.(*ssa.Call); ok {
 			return "call:" + Short(CalleeName(c)) + "#" + itoa(x.Index), true
 		}
+		if ta, ok := x.Tuple.(*ssa.TypeAssert); ok && x.Index == 0 {
+			return AccessPath(ta.X)
+		}
+	case *ssa.TypeAssert:
+		return AccessPath(x.X)
 	case *ssa.Alloc:
 		// a local holding a captured variable: name it by its comment
 		return "local:" + x.Comment, x.Comment != ""
